@@ -30,4 +30,20 @@ def runAtomic {σ α : Type} (f : σ → α → σ) : AtomSt σ α → List (Lis
 def counterStep (m : List (Int × Nat)) (w : Int × Int) : List (Int × Nat) :=
   upsert m w.2 (fun o => o.getD 0 + 1)
 
+/-! reduce-style registers: DFIR `reduce` holds `None` until the first item, then combines -/
+
+/-- `Stream::last()` = `reduce(|curr, new| *curr = new)`: a last-writer-wins register -/
+def lwwStep {α : Type} (_ : Option α) (w : α) : Option α := some w
+
+/-- `Stream::max()` = `reduce(|curr, new| if new > *curr { *curr = new })` -/
+def maxRegStep (s : Option Int) (w : Int) : Option Int :=
+  match s with
+  | none => some w
+  | some m => some (maxStep m w)
+
+/-- keyed `reduce(|curr, new| *curr = new)`: per-key last-writer-wins registers, a write is
+`(key, value)` -/
+def klwwStep (m : List (Int × Int)) (w : Int × Int) : List (Int × Int) :=
+  upsert m w.1 (fun _ => w.2)
+
 end HvHydro2
